@@ -80,7 +80,7 @@ type emoji struct {
 }
 
 func runC07(seed int64, n int, tier string, outDir string) (*Report, error) {
-	rep := &Report{Exhaustive: true, Rule: "exhaustive: every vocabulary name (W3C list, 51) + 4 generic names + the empty name + 3 unknown names x {registry, JSON top level, JSON in item position, JSON in list position, gob top level, gob nested} x {hooks unset, extension hooks set}; per cell the concrete Go type (reflect) against an independent name->type table, id/name payload and the properties only that Go type has, family list membership, IsObject/IsLink/IsCollection, On/To acceptance; Coq: registry/JSON/gob kinds per name against the generated switch tables; non-trivial = every cell with a vocabulary name; distinct by (name, position, hooks)"}
+	rep := &Report{Exhaustive: true, Rule: "exhaustive: every vocabulary name (W3C list, 51) + 4 generic names + the empty name + 3 unknown names x {registry, JSON top level, JSON in item position, JSON in list position, gob top level, gob nested in item and in list position} x {hooks unset, extension hooks set}; per cell the concrete Go type (reflect) against an independent name->type table, id/name payload and the properties only that Go type has, family list membership, IsObject/IsLink/IsCollection, On/To acceptance; Coq: registry/JSON/gob kinds per name against the generated switch tables; non-trivial = every cell with a vocabulary name; distinct by (name, position, hooks)"}
 	hdr := "From AP.Model Require Import Prelude Vocab Bytes Dispatch.\nFrom AP.Gen Require Import Switches.\n" +
 		"Definition registry (n : bytes) : option kind := tag_kind (sw_lookup sw_GetItemByType sw_GetItemByType_default n).\n" +
 		"Definition ok (c : bytes * option kind * option kind * option kind) : bool := let '(n, reg, js, gb) := c in\n" +
@@ -273,11 +273,25 @@ func runC07(seed int64, n int, tier string, outDir string) (*Report, error) {
 							_ = ap.OnObject(back, func(o *ap.Object) error { gobNested = o.AttributedTo; return nil })
 						}
 					}
+					// in list position, next to a bare IRI naming the same id (a list may hold a reference and the value):
+					// the decoded list has the same length and the typed member in its place
+					var gobList ap.Item
+					lholder := &ap.Object{ID: "https://example.com/outer", Type: ap.NoteType, Tag: ap.ItemCollection{ap.IRI(id), reg, ap.IRI("https://example.com/other")}}
+					if data, err := ap.GobEncode(lholder); err == nil {
+						if back, err := ap.GobDecode(data); err == nil {
+							_ = ap.OnObject(back, func(o *ap.Object) error {
+								if len(o.Tag) == 3 {
+									gobList = o.Tag[1]
+								}
+								return nil
+							})
+						}
+					}
 					cls := ""
 					if structName(reg) == "Link" {
 						cls = "gob-link-in-item-position"
 					}
-					for pos, got := range map[string]ap.Item{"gob-top": gobTop, "gob-nested": gobNested} {
+					for pos, got := range map[string]ap.Item{"gob-top": gobTop, "gob-nested": gobNested, "gob-list": gobList} {
 						rep.Evaluations++
 						rep.Count("cell:" + pos)
 						rep.Distinguish(fmt.Sprintf("%s|%s|%v", name, pos, hooks), known)
